@@ -36,30 +36,45 @@ def _walk(exprs):
             stack.append(e.body())
 
 
-def index_terms(exprs, sums, exts):
+_WALK_CACHE = {}
+
+
+def _scan(e, fnids):
+    """(index terms, sigma/extremum applications) of one formula, cached per formula object"""
+    key = e.get_id()
+    hit = _WALK_CACHE.get(key)
+    if hit is not None and hit[3] == len(fnids):
+        return hit[0], hit[1]
     out = {}
+    apps = {}
+    for x in _walk([e]):
+        if not z3.is_app(x):
+            continue
+        k = x.decl().kind()
+        if k == z3.Z3_OP_SELECT or k == z3.Z3_OP_STORE:
+            idx = x.arg(1)
+            if idx.sort() == z3.IntSort():
+                out[idx.get_id()] = idx
+        elif k == z3.Z3_OP_UNINTERPRETED and x.num_args() == 2:
+            r = fnids.get(x.decl().get_id())
+            if r is not None:
+                apps[x.get_id()] = (r, x)
+    _WALK_CACHE[key] = (out, apps, e, len(fnids))
+    return out, apps
+
+
+def index_terms(exprs, sums, exts):
     fnids = {}
     for ss in sums:
         fnids[ss.fn.get_id()] = ("sum", ss)
     for es in exts:
         fnids[es.val.get_id()] = ("ext", es)
+    out = {}
     apps = {}
-    for e in _walk(exprs):
-        if not z3.is_app(e):
-            continue
-        k = e.decl().kind()
-        if k == z3.Z3_OP_SELECT:
-            idx = e.arg(1)
-            if idx.sort() == z3.IntSort():
-                out[idx.get_id()] = idx
-        elif k == z3.Z3_OP_STORE:
-            idx = e.arg(1)
-            if idx.sort() == z3.IntSort():
-                out[idx.get_id()] = idx
-        elif k == z3.Z3_OP_UNINTERPRETED and e.num_args() == 2:
-            r = fnids.get(e.decl().get_id())
-            if r is not None:
-                apps[e.get_id()] = (r, e)
+    for e in exprs:
+        o, a = _scan(e, fnids)
+        out.update(o)
+        apps.update(a)
     return out, apps
 
 
